@@ -5,6 +5,7 @@
    F is any ordered field (realFieldType), K is (m+1) x (n+1) for arbitrary m, n (under- and over-determined),
    "SPD" is `spd`: M^T = M and x^T M x > 0 for all x <> 0 (Model/C17_oem.v).  No invertibility hypotheses:
    they are consequences of SPD (Proofs: posdef_unit). *)
+Set Warnings "-notation-overridden,-ambiguous-paths".
 From mathcomp Require Import all_ssreflect all_algebra.
 From TyphonGen Require Import oem.
 From Typhon Require Import Model.C17_oem Proofs.C17_oem.
@@ -73,6 +74,32 @@ Theorem A_eigenvalues_in_unit_interval_partial : forall (F : realFieldType) (m n
   forall a : F, eigenvalue (averaging_kernel_matrix K Sa Sy) a -> 0 <= a < 1.
 Proof. exact: spd_A_eigenvalue_bounds. Qed.
 
+(* The two limits.  Proved: explicit bounds that are LINEAR in the scaling factor, for every x --
+     prior d*Sa:   A_d = S_d (K^T Sy^-1 K)  and  0 <= x^T S_d x <= d x^T Sa x;
+     noise e*Sy (K of full column rank: K x <> 0 for x <> 0):
+                   A_e = I - S_e Sa^-1      and  0 <= x^T S_e x <= e x^T (K^T Sy^-1 K)^-1 x.
+   _partial: NOT formalised is the passage to the limit itself (no topology on matrices in the installed
+   libraries): S_d, S_e are symmetric, so each entry is a combination of three such quadratic forms and tends to
+   zero with d resp. e; hence A_d -> 0 and A_e -> I.  The numeric sweep checks ||A_d|| and ||I - A_e|| against the
+   corresponding norm bounds for factors down to 1e-8. *)
+Theorem A_vanishing_prior_bound_partial : forall (F : realFieldType) (m n : nat)
+    (K : 'M[F]_(m.+1, n.+1)) (Sa : 'M[F]_(n.+1)) (Sy : 'M[F]_(m.+1)), spd Sa -> spd Sy ->
+  forall d : F, 0 < d ->
+  let S_d := error_covariance_matrix K (d *: Sa) Sy in
+  averaging_kernel_matrix K (d *: Sa) Sy = S_d *m (K^T *m invmx Sy *m K) /\
+  forall x : 'cV[F]_(n.+1), 0 <= (x^T *m S_d *m x) 0 0 <= d * (x^T *m Sa *m x) 0 0.
+Proof. exact: prior_scaling_bound. Qed.
+
+Theorem A_vanishing_noise_bound_partial : forall (F : realFieldType) (m n : nat)
+    (K : 'M[F]_(m.+1, n.+1)) (Sa : 'M[F]_(n.+1)) (Sy : 'M[F]_(m.+1)), spd Sa -> spd Sy ->
+  (forall x : 'cV[F]_(n.+1), x != 0 -> K *m x != 0) ->
+  forall e : F, 0 < e ->
+  let S_e := error_covariance_matrix K Sa (e *: Sy) in
+  averaging_kernel_matrix K Sa (e *: Sy) = 1%:M - S_e *m invmx Sa /\
+  forall x : 'cV[F]_(n.+1),
+    0 <= (x^T *m S_e *m x) 0 0 <= e * (x^T *m invmx (K^T *m invmx Sy *m K) *m x) 0 0.
+Proof. exact: noise_scaling_bound. Qed.
+
 (* smoothing_error and retrieval_noise are the linear maps A (x - x_a) and G e_y *)
 Theorem smoothing_error_is_A_dx : forall (F : fieldType) (n : nat) (x xa : 'cV[F]_(n.+1)) (A : 'M[F]_(n.+1)),
   smoothing_error x xa A = A *m (x - xa).
@@ -95,6 +122,10 @@ split; first exact: spd_gram.
 exact: (spd_G_m_form K (spd_gram C) (spd_gram D)).
 Qed.
 
+(* non-vacuity of the full-column-rank hypothesis: the identity Jacobian (direct measurement of the state) *)
+Example nonvacuous_full_rank : forall x : 'cV[rat]_3, x != 0 -> (1%:M : 'M[rat]_3) *m x != 0.
+Proof. by move=> x xn0; rewrite mul1mx. Qed.
+
 Print Assumptions S_defining.
 Print Assumptions S_symmetric_positive_definite.
 Print Assumptions S_le_Sa.
@@ -104,5 +135,7 @@ Print Assumptions gain_m_form_units.
 Print Assumptions A_eq_GK.
 Print Assumptions A_eq_I_minus_S_Sainv.
 Print Assumptions A_eigenvalues_in_unit_interval_partial.
+Print Assumptions A_vanishing_prior_bound_partial.
+Print Assumptions A_vanishing_noise_bound_partial.
 Print Assumptions smoothing_error_is_A_dx.
 Print Assumptions retrieval_noise_is_G_ey.
